@@ -92,21 +92,30 @@ AgreesDiag(e) ==
 
 TInit == Init /\ l = 2
 
+\* Totality mode (header total = TRUE) is used for programs that put the directory into
+\* states outside the abstract model (a bucket path that is a directory, a file where a
+\* directory should be): the only thing required of a call is that it returns - a value or
+\* an error - i.e. its logged outcome is not a panic, a hang or a dead process (C20).
+Returned(o) == IF o.ok THEN TRUE ELSE o.e \notin {"PANIC", "HANG", "DIED"}
+
 TCall == /\ l <= N /\ Ev.ev = "call"
-         /\ Do(Ev.op)
-         /\ IF Diag THEN (IF ResAgrees(Ev.op, res', Ev.res) THEN TRUE
-                          ELSE Report("result", res', Ev.res))
-            ELSE ResAgrees(Ev.op, res', Ev.res)
+         /\ IF Hdr.total
+            THEN Returned(Ev.res) /\ UNCHANGED vars
+            ELSE /\ Do(Ev.op)
+                 /\ IF Diag THEN (IF ResAgrees(Ev.op, res', Ev.res) THEN TRUE
+                                  ELSE Report("result", res', Ev.res))
+                    ELSE ResAgrees(Ev.op, res', Ev.res)
          /\ l' = l + 1
 
 TEnv == /\ l <= N /\ Ev.ev = "env"
-        /\ Do(Ev.op)
+        /\ IF Hdr.total THEN UNCHANGED vars ELSE Do(Ev.op)
         /\ l' = l + 1
 
 \* in diagnostic mode the ghost adopts the observed projection after reporting, so that the
 \* following lines can still be examined and every divergence of a trace is reported
 TState == /\ l <= N /\ Ev.ev = "state"
-          /\ IF Diag
+          /\ IF Hdr.total THEN UNCHANGED vars
+             ELSE IF Diag
              THEN /\ AgreesDiag(Ev)
                   /\ buckets' = ObsBuckets(Ev) /\ store' = ObsStore(Ev) /\ ext' = ObsExt(Ev)
                   /\ tmp' = Ev.tmp /\ hasIndex' = Ev.hasIndex
